@@ -137,6 +137,11 @@ pub fn check_fields(f: &Fields, st: &mut Stats, exact: bool) -> Result<(), Strin
         if back != v {
             return Err(format!("{f:?}: calendar -> unix -> calendar gave {back}"));
         }
+        // the same round trip at nanosecond resolution: the value's own nanosecond count leads back to the value
+        match UtcDateTime::from_total_nanoseconds(v.total_nanoseconds()) {
+            Ok(b2) if b2 == v && v.total_nanoseconds() == exp * 1_000_000_000 + f.ns as i128 => {}
+            other => return Err(format!("{f:?}: calendar -> total nanoseconds ({}) -> calendar gave {other:?}", v.total_nanoseconds())),
+        }
     } else {
         st.class("second60");
         // second 60 == second 0 of the next minute
